@@ -221,3 +221,77 @@ Proof.
     + eapply create_nodup. exact Hcreate.
     + reflexivity.
 Qed.
+
+(** * soundness of the executable statement: a [true] verdict means the property, as a Prop *)
+Lemma nodupb_sound : forall l, nodupb l = true -> NoDup l.
+Proof.
+  induction l as [|x t IH]; intro H; [constructor|]. cbn [nodupb] in H. apply andb_true_iff in H as [H1 H2].
+  constructor; [|apply IH, H2]. intro Hin. apply memb_in in Hin. rewrite Hin in H1. discriminate.
+Qed.
+
+Lemma check_create_sound_l : forall toks max_size items fs,
+  check_create toks max_size (L [I 0%Z; items; I fs]) = true ->
+  let d := v_items items in
+  NoDup (map fst d)
+  /\ (forall w f, In (w, f) d -> f = count_tok w toks /\ 0 < f)
+  /\ N.of_nat (length d) = cap_len max_size (length (dedup toks))
+  /\ (forall w, In w toks -> ~ In w (map fst d) -> forall w' f', In (w', f') d -> count_tok w toks <= f')
+  /\ (0 <= fs)%Z /\ Z.to_N fs = freq_sum d.
+Proof.
+  intros toks max_size items fs H d. unfold check_create in H. fold d in H.
+  repeat (apply andb_true_iff in H; destruct H as [H ?]).
+  rename H0 into Hfs2, H1 into Hfs1, H2 into Hom, H3 into Hlen, H4 into Hcnt, H5 into Hnd.
+  split; [apply nodupb_sound, Hnd|]. split; [|split; [|split; [|split]]].
+  - intros w f Hin. rewrite forallb_forall in Hcnt. specialize (Hcnt _ Hin). cbn [fst snd] in Hcnt. lia.
+  - unfold cap_len. destruct max_size; lia.
+  - intros w Hw Hn w' f' Hin. rewrite forallb_forall in Hom.
+    assert (Hd : In w (dedup toks)) by (apply dedup_in; exact Hw).
+    specialize (Hom _ Hd). apply orb_true_iff in Hom as [Hom|Hom].
+    + apply memb_in in Hom. contradiction.
+    + rewrite forallb_forall in Hom. specialize (Hom _ Hin). cbn [snd] in Hom. lia.
+  - lia.
+  - lia.
+Qed.
+
+Lemma with_dists_some : forall norm segs q d l, with_dists norm segs q d = Some l -> covered segs d.
+Proof.
+  intros norm segs q. induction d as [|e d IH]; intros l H e' He'; [destruct He'|].
+  cbn [with_dists] in H. destruct (seg_of segs (fst e)) as [s|] eqn:E; [|discriminate].
+  destruct (with_dists norm segs q d) as [l'|] eqn:E2; [|discriminate].
+  destruct He' as [<-|He']; [congruence|]. eapply IH; [reflexivity|exact He'].
+Qed.
+
+Lemma check_closest_sound_l : forall segs (d : dict) norm nq qc a,
+  check_closest segs d (norm, (nq, qc)) a = true ->
+  (d = [] -> exists g, a = L [g; L []]) /\
+  (d <> [] ->
+   covered segs d /\
+   exists g wv fz, a = L [g; L [L [wv; I fz]]] /\
+     In (v_bytes wv, Z.to_N fz) d /\
+     forall e', In e' d ->
+       (kdist norm segs qc (v_bytes wv, Z.to_N fz) <= kdist norm segs qc e')%Q /\
+       ((kdist norm segs qc e' == kdist norm segs qc (v_bytes wv, Z.to_N fz))%Q -> snd e' <= Z.to_N fz)).
+Proof.
+  intros segs d norm nq qc a H. unfold check_closest in H. cbn [fst snd] in H. split.
+  - intros ->.
+    destruct a as [z|[|g [|[z|[|x lx]] [|y ly]]]]; try discriminate H. exists g. reflexivity.
+  - intro Hne. destruct d as [|e0 d0]; [congruence|]. cbv beta iota in H. set (d := e0 :: d0) in *.
+    destruct (with_dists norm segs qc d) as [l|] eqn:W; [|discriminate].
+    pose proof (with_dists_some _ _ _ _ _ W) as C. split; [exact C|].
+    rewrite (with_dists_covered norm segs qc d C) in W. injection W as <-.
+    destruct a as [z|[|g [|[z|[|[z|[|wv [|[fz|lf] [|y3 l3]]]] [|y2 l2]]] [|y1 l1]]]]; try discriminate H.
+    exists g, wv, fz. split; [reflexivity|].
+    set (w := v_bytes wv) in *. set (f := Z.to_N fz) in *.
+    set (l := map (fun e => (kdist norm segs qc e, e)) d) in *.
+    change ((kdist norm segs qc e0, e0) :: map (fun e : word * N => (kdist norm segs qc e, e)) d0) with l in H.
+    destruct (find (fun p : Q * (word * N) => bytes_eqb (fst (snd p)) w && (snd (snd p) =? f)) l) as [[dw e']|] eqn:F;
+      [|discriminate].
+    apply find_some in F as [F1 F2]. cbn [fst snd] in F2. apply andb_true_iff in F2 as [F2 F3].
+    apply bytes_eqb_eq in F2. assert (F4 : snd e' = f) by lia. destruct e' as [w' f']. cbn [fst snd] in *. subst w' f'.
+    unfold l in F1. apply in_map_iff in F1 as [e1 [E1 Hin1]]. injection E1 as Edw ->.
+    split; [exact Hin1|]. intros e2 Hin2. rewrite forallb_forall in H.
+    assert (Hl2 : In (kdist norm segs qc e2, e2) l) by (unfold l; apply in_map_iff; exists e2; auto).
+    specialize (H _ Hl2). cbn [fst snd] in H. apply andb_true_iff in H as [H1 H2]. rewrite <- Edw in *.
+    apply Qle_bool_iff in H1. split; [exact H1|]. intro Q. apply Qeq_bool_iff in Q.
+    match type of H2 with (if ?c then _ else _) = true => replace c with true in H2 by (symmetry; exact Q) end. lia.
+Qed.
